@@ -32,10 +32,11 @@ from harness import common as C
 PID = "C15"
 GEN = ["C15Consts"]
 
-HIST_PRE = """From Coq Require Import List String Ascii Bool.
+HIST_PRE = """From Coq Require Import List String Ascii Bool NArith.
 From NG Require Import Svc.HistKey Svc.HistCache Svc.HistRun.
 Import ListNotations.
 Open Scope string_scope.
+Open Scope N_scope.
 """
 PAR_PRE = """From Coq Require Import List ZArith Bool.
 From NG Require Import Svc.Params.
@@ -205,25 +206,35 @@ def strip(x):
 
 
 def token(e):
-    """uid-free token of an event; the first five shapes are the ones Svc/HistRun.v::conv1 produces."""
+    """uid-free token of an event: [tag, text] for the shapes Svc/HistRun.v::conv1 produces, else ["X", hash]."""
     t = e.get("type")
     if t == "UtteranceUserActionFinished":
-        return "U:" + str(e.get("final_transcript"))
+        return ["U", str(e.get("final_transcript"))]
     if t == "UserMessage":
-        return "M:" + str(e.get("text"))
+        return ["M", str(e.get("text"))]
     if t == "StartUtteranceBotAction":
-        return "S:" + str(e.get("script"))
+        return ["S", str(e.get("script"))]
     if t == "UtteranceBotActionFinished":
-        return "F:" + str(e.get("final_script"))
-    if t == "ContextUpdate":
-        return "C:" + json.dumps(e.get("data"), default=str)
+        return ["F", str(e.get("final_script"))]
     if "uid" not in e:
-        return "E:" + json.dumps(e, default=str)
-    return "X:" + str(t) + ":" + hashlib.sha1(json.dumps(strip(e), sort_keys=True, default=str).encode()).hexdigest()[:6]
+        if t == "ContextUpdate":
+            return ["C", json.dumps(e.get("data"), default=str)]
+        return ["E", json.dumps(e, default=str)]
+    return ["X", int(hashlib.sha1((str(t) + json.dumps(strip(e), sort_keys=True, default=str)).encode()).hexdigest()[:12], 16)]
+
+
+_INTERN = {}
+
+
+def coq_tok(t):
+    """X tokens are interned per trace (injective renaming; the model only copies and compares them)."""
+    if t[0] == "X":
+        return f"(TX {_INTERN.setdefault(t[1], len(_INTERN))})"
+    return f"(t{t[0]} {C.coq_string(t[1])})"
 
 
 ROLE_COQ = {"user": "RUser", "assistant": "RAssistant", "context": "RContext", "event": "REvent",
-            "exception": "(ROther 0)", "system": "(ROther 1)", "tool": "(ROther 2)"}
+            "exception": "(ROther 0%nat)", "system": "(ROther 1%nat)", "tool": "(ROther 2%nat)"}
 
 
 def smsg(m):
@@ -237,7 +248,8 @@ def smsg(m):
         b = json.dumps(m["event"])
     else:
         b = m.get("content")
-        b = b if isinstance(b, str) else json.dumps(b, sort_keys=True, default=str)
+        # identity of the message only (the key function ignores these roles)
+        b = b if isinstance(b, str) else "#" + hashlib.sha1(json.dumps(b, sort_keys=True, default=str).encode()).hexdigest()[:16]
     if r not in ROLE_COQ:
         raise ValueError("role " + r)
     return ROLE_COQ[r], b
@@ -253,7 +265,7 @@ def coq_msgs(ms):
 
 
 def coq_toks(ts):
-    return C.coq_list([C.coq_string(t) for t in ts])
+    return C.coq_list([coq_tok(t) for t in ts])
 
 
 def canon_reply(m):
@@ -448,8 +460,9 @@ def honest_conv(conv):
 
 
 def probes_for(iso_recs):
-    """Probe requests: for every served list L of every conversation: L+[q] (exact), the key of L
-    as one user message +[q], L with every contributing role sent as user +[q]."""
+    """Probe requests: for every served list L = request+reply of every conversation: L+[q] (exact),
+    request+[q] (never stored), the key of L as one user message +[q], L with every contributing
+    role sent as user +[q]."""
     out = []
     q = u("zz")
     for recs in iso_recs:
@@ -458,6 +471,7 @@ def probes_for(iso_recs):
             if any(m["role"] == "error" for m in stored):
                 continue
             out.append(stored + [q])
+            out.append(r["req"] + [q])                     # the request without its reply was never stored
             out.append([u(key_of(stored)), q])
             items = [m for m in stored if m["role"] in ("user", "assistant", "context", "event")]
             out.append([u(smsg(m)[1]) for m in items] + [q])
@@ -471,16 +485,24 @@ def lists_equal(a, b):
     return json.dumps(a, sort_keys=True, default=str) == json.dumps(b, sort_keys=True, default=str)
 
 
-def work_set(args):
+def prep_set(args):
+    """Isolated replays of every conversation of the set, probe requests, schedules."""
     s, cap, seed = args
     rng = random.Random(seed)
+    iso = [isolated(s["config"], c) for c in s["convs"]]
+    scheds, total = interleavings([len(c) for c in s["convs"]], cap, rng)
+    if s.get("sched"):
+        scheds = [tuple(s["sched"])] + ([] if s.get("only_sched") else [x for x in scheds if list(x) != list(s["sched"])])
+    return {"iso": iso, "probes": probes_for(iso), "scheds": scheds, "total": total}
+
+
+def work_set(args):
+    s, prep, scheds = args
     config, convs = s["config"], s["convs"]
-    iso = [isolated(config, c) for c in convs]
-    probes = probes_for(iso)
+    iso, probes = prep["iso"], prep["probes"]
     served_iso = [(ci, json.dumps([smsg(m) for m in r["req"] + [r["reply"]]])) for ci, recs in enumerate(iso) for r in recs]
     fresh_app = mk_app(config)[0]
-    scheds, total = interleavings([len(c) for c in convs], cap, rng)
-    res = {"terms": [], "meta": [], "findings": [], "n_sched": len(scheds), "n_sched_total": total,
+    res = {"terms": [], "meta": [], "findings": [], "n_sched": len(scheds),
            "turns": 0, "honest": all(honest_conv(c) for c in convs), "kind": s["kind"], "probe_n": 0,
            "skipped_same_history": 0, "hits_cross": 0}
     configured = None
@@ -488,6 +510,7 @@ def work_set(args):
         recs, precs, final = run_schedule(config, convs, list(sched), probes)
         if configured is None:
             configured = {"attrs": {"temperature": 0.5, "max_tokens": 100}, "kwargs": None}
+        _INTERN.clear()
         try:
             ops = ["Serve {} {} {} {}".format(coq_msgs(r["req"]), coq_toks(r["events"]), coq_smsg(r["reply"]), coq_toks(r["new"]))
                    for r in recs]
@@ -602,59 +625,83 @@ class _Obj:
     pass
 
 
-def gen_params_case(rng):
-    """A small LLM-like object, a few managers, an arbitrary interleaving of their enter/exit."""
-    ns = impl()
+def gen_params_spec(rng):
+    """A small LLM-like object, a few managers, an arbitrary interleaving of their enter/call/exit."""
     names = ["temperature", "max_tokens", "top_p", "n", "seed"]
     vals = [None, 0.0, 0.2, 0.5, 0.9, 1.0, 3.0, 100.0]
+    attrs = {a: rng.choice(vals) for a in rng.sample(names, rng.randint(0, 3))}
+    kwargs = None
+    if rng.random() < 0.6:
+        kwargs = {k: rng.choice(vals) for k in rng.sample([n for n in names if n not in attrs], rng.randint(0, 2))}
+    nm = rng.randint(1, 3)
+    mans = [{k: rng.choice(vals) for k in rng.sample(names, rng.randint(0, 3))} for _ in range(nm)]
+    ops = []
+    if rng.random() < 0.4:
+        for i in range(nm):
+            ops += [[i, "enter"], [i, "call"], [i, "exit"]]
+    else:
+        pend = {i: ["enter", "call", "exit"] for i in range(nm)}
+        while pend:
+            i = rng.choice(list(pend))
+            ops.append([i, pend[i].pop(0)])
+            if not pend[i]:
+                del pend[i]
+    return {"attrs": attrs, "kwargs": kwargs, "mans": mans, "ops": ops}
+
+
+def run_params_spec(spec):
+    ns = impl()
     o = _Obj()
-    attrs = rng.sample(names, rng.randint(0, 3))
-    for a in attrs:
-        setattr(o, a, rng.choice(vals))
-    has_kw = rng.random() < 0.6
+    attrs = list(spec["attrs"])
+    for a, v in spec["attrs"].items():
+        setattr(o, a, v)
+    has_kw = spec["kwargs"] is not None
     if has_kw:
-        o.model_kwargs = {k: rng.choice(vals) for k in rng.sample([n for n in names if n not in attrs], rng.randint(0, 2))}
+        o.model_kwargs = dict(spec["kwargs"])
 
     def snap():
         return {"attrs": {a: getattr(o, a) for a in attrs}, "kwargs": dict(o.model_kwargs) if has_kw else None}
 
     l0 = snap()
-    nm = rng.randint(1, 3)
-    mans = [ns["P"].LLMParams(o, **{k: rng.choice(vals) for k in rng.sample(names, rng.randint(0, 3))}) for _ in range(nm)]
-    serial = rng.random() < 0.4
-    ops = []
-    if serial:
-        for i in range(nm):
-            ops += [(i, "enter"), (i, "call"), (i, "exit")]
-    else:
-        pend = {i: ["enter", "call", "exit"] for i in range(nm)}
-        while pend:
-            i = rng.choice(list(pend))
-            ops.append((i, pend[i].pop(0)))
-            if not pend[i]:
-                del pend[i]
+    mans = [ns["P"].LLMParams(o, **m) for m in spec["mans"]]
     log = []
     open_now = set()
     overlapped = False
-    anomalies = []
-    for i, op in ops:
+    anomalies, call_anomalies = [], []
+    before = {}
+    for i, op in spec["ops"]:
         if op == "enter":
             if open_now:
                 overlapped = True
+            before[i] = snap() if not open_now else None
             open_now.add(i)
             type(mans[i]).__enter__(mans[i])
             log.append((i, "OEnter " + coq_pmap(mans[i].altered_params), snap()))
         elif op == "call":
-            log.append((i, "OCall", snap()))
+            s = snap()
+            log.append((i, "OCall", s))
+            if before.get(i) is not None and open_now == {i}:
+                # no other manager open since this one was entered: the call must see the object as
+                # it was before, with exactly its own parameters applied
+                want = json.loads(json.dumps(before[i]))
+                for k, v in spec["mans"][i].items():
+                    if k in want["attrs"]:
+                        want["attrs"][k] = v
+                    elif want["kwargs"] is not None:
+                        want["kwargs"][k] = v
+                if s != want:
+                    call_anomalies.append({"call": s, "own": want})
         else:
             type(mans[i]).__exit__(mans[i], None, None, None)
             open_now.discard(i)
             s = snap()
             log.append((i, "OExit", s))
+            if open_now:
+                before = {k: None for k in before}
             if not open_now and s != l0:
                 anomalies.append(s)
     return {"l0": l0, "log": log, "overlapped": overlapped, "anomalies": anomalies,
-            "mans": [dict(m.altered_params) for m in mans], "ops": ops, "attrs": attrs, "has_kw": has_kw}
+            "call_anomalies": call_anomalies, "spec": spec}
 
 
 def only_none_residue(l0, s):
@@ -832,19 +879,22 @@ def run(tier, seed, replay=None):
     thorough = tier == "thorough"
     impl()
 
-    n_key = 0 if replay else (3000 if thorough else 600)
-    n_rand = 0 if replay else (14 if thorough else 4)
-    n_adv = 0 if replay else (10 if thorough else 3)
-    cap = 1680 if thorough else 40
-    n_par = 0 if replay else (6000 if thorough else 1200)
-    n_conc = 0 if replay else (400 if thorough else 80)
+    sc = float(os.environ.get("C15_SCALE", "1"))        # development knob (mutation experiments); 1 in normal use
+    n_key = 0 if replay else int((3000 if thorough else 600) * sc)
+    n_rand = 0 if replay else max(1, int((14 if thorough else 4) * sc))
+    n_adv = 0 if replay else max(1, int((10 if thorough else 3) * sc))
+    cap = 1680 if thorough else max(8, int(40 * sc))
+    n_par = 0 if replay else int((6000 if thorough else 1200) * sc)
+    n_conc = 0 if replay else int((400 if thorough else 64) * sc)
+    if sc != 1:
+        out.notes.append(f"C15_SCALE={sc}")
 
     sets, conc_jobs = [], []
-    for r in load_corpus() + ([json.load(open(replay)).get("replay")] if replay else []):
-        if not r:
-            continue
+    replays_and_corpus = [r for r in load_corpus() + ([json.load(open(replay)).get("replay")] if replay else []) if r]
+    for r in replays_and_corpus:
         if r.get("kind") == "cache":
-            sets.append({"config": r["config"], "kind": "corpus", "convs": r["convs"], "sched": r.get("sched")})
+            sets.append({"config": r["config"], "kind": "corpus", "convs": r["convs"], "sched": r.get("sched"),
+                         "only_sched": bool(replay) and bool(r.get("sched"))})
         elif r.get("kind") == "concurrent":
             conc_jobs.append((r["config"], r["model_kwargs"], [(m, lp) for m, lp in r["requests"]],
                               {tuple(k): v for k, v in r["latencies"]}, r["starts"]))
@@ -876,10 +926,29 @@ def run(tier, seed, replay=None):
     # ---- (2) conversations on shared vs fresh instances
     for cfg in ("general", "selfcheck", "exc"):
         sets += gen_sets(cfg, rng, n_rand, n_adv)
-    jobs = [(s, cap, rng.randrange(1 << 30)) for s in sets]
+    for cfg in CONFIGS:
+        mk_app(cfg)                      # parse the configs before forking
+    preps = _pool_map(prep_set, [(s, cap, rng.randrange(1 << 30)) for s in sets])
+    _t(out, 'isolated replays done')
+    jobs, owner = [], []
+    for si, (s, pr) in enumerate(zip(sets, preps)):
+        for i in range(0, len(pr["scheds"]), 6):
+            jobs.append((s, pr, pr["scheds"][i:i + 6]))
+            owner.append(si)
     _t(out, 'sets generated')
-    results = _pool_map(work_set, jobs)
+    chunks = _pool_map(work_set, jobs)
     _t(out, 'sets run on the implementation')
+    results = []
+    for si, s in enumerate(sets):
+        mine = [c for c, o in zip(chunks, owner) if o == si]
+        r = {"terms": [], "meta": [], "findings": [], "n_sched": 0, "turns": 0, "probe_n": 0, "skipped_same_history": 0,
+             "hits_cross": 0, "honest": all(honest_conv(c) for c in s["convs"]), "kind": s["kind"]}
+        for c in mine:
+            for k in ("terms", "meta", "findings"):
+                r[k] += c[k]
+            for k in ("n_sched", "turns", "probe_n", "skipped_same_history", "hits_cross"):
+                r[k] += c[k]
+        results.append(r)
     terms, metas = [], []
     kinds = {}
     n_turns = n_probe = n_sched = n_honest = skipped = 0
@@ -896,7 +965,7 @@ def run(tier, seed, replay=None):
             out.findings.append(C.Finding(sig, what, payload))
     distinct = len({C.canon_hash(t) for t in terms})
     if okm and terms:
-        bools, err = C.run_cases(PID + "_trace", HIST_PRE, terms, "check_trace", shard=60)
+        bools, err = C.run_cases(PID + "_trace", HIST_PRE, terms, "check_trace", shard=12)
         if err:
             out.add_broken("correspondence:C15-cache(coqc)", err)
         else:
@@ -911,22 +980,26 @@ def run(tier, seed, replay=None):
     # ---- (3) LLMParams pure differential
     par_terms, par_kept = [], []
     par_stats = {"serial": 0, "overlapped": 0, "anomalies": 0}
-    for _ in range(n_par):
-        c = gen_params_case(rng)
+    par_specs = [r for r in replays_and_corpus if r.get("kind") == "params"]
+    par_specs = [r["spec"] for r in par_specs] + [gen_params_spec(rng) for _ in range(n_par)]
+    for spec in par_specs:
+        c = run_params_spec(spec)
         par_stats["overlapped" if c["overlapped"] else "serial"] += 1
         log = C.coq_list([f"({i}%nat, {op}, {coq_llm(s)})" for i, op, s in c["log"]])
         par_terms.append(f"({coq_llm(c['l0'])}, {log})")
         par_kept.append(c)
-        if c["anomalies"]:
+        if c["anomalies"] or c["call_anomalies"]:
             par_stats["anomalies"] += 1
-            payload = {"kind": "params", "llm": c["l0"], "managers": c["mans"], "ops": c["ops"], "quiescent_states": c["anomalies"]}
+            payload = {"kind": "params", "spec": spec, "quiescent_states": c["anomalies"], "calls": c["call_anomalies"]}
             if c["overlapped"]:
                 sig = SIG_RACE
-            elif all(only_none_residue(c["l0"], s) for s in c["anomalies"]):
+            elif not c["call_anomalies"] and all(only_none_residue(c["l0"], s) for s in c["anomalies"]):
                 sig = SIG_KWNONE
             else:
                 sig = SIG_PARAMS_SERIAL
-            out.findings.append(C.Finding(sig, "with no manager open the object is %s, configured %s" % (c["anomalies"][0], c["l0"]), payload))
+            what = ("with no manager open the object is %s, configured %s" % (c["anomalies"][0], c["l0"])) if c["anomalies"] else \
+                   ("a call without any overlap saw %s" % c["call_anomalies"][0])
+            out.findings.append(C.Finding(sig, what, payload))
     if okm and par_terms:
         bools, err = C.run_cases(PID + "_params", PAR_PRE, par_terms, "check_ptrace")
         if err:
@@ -936,7 +1009,7 @@ def run(tier, seed, replay=None):
             if bad:
                 c = min(bad, key=lambda c: len(json.dumps(c["log"], default=str)))
                 out.add_broken("correspondence:C15-params",
-                               f"{len(bad)} LLMParams traces are not traces of Svc.Params; smallest: llm={c['l0']} managers={c['mans']} ops={c['ops']} observed={[s for _, _, s in c['log']]}")
+                               f"{len(bad)} LLMParams traces are not traces of Svc.Params; smallest: spec={c['spec']} observed={[s for _, _, s in c['log']]}")
 
     _t(out, 'params differential done')
     # ---- (4) concurrency
